@@ -403,6 +403,9 @@ func rlaneMain(argv []string) int {
 	t0 := time.Now()
 	for idx := *from; idx < *cases; idx += int64(*wn) {
 		if time.Now().After(deadline) {
+			if *cases < 1<<39 {
+				w.St.Errors = append(w.St.Errors, fmt.Sprintf("budget reached at case %d of %d", idx, *cases))
+			}
 			break
 		}
 		mu.Lock()
@@ -519,6 +522,9 @@ func runLaneR(f *commonFlags, scratch string) (map[string]any, []*Violation, int
 	}
 	if v := os.Getenv("VERIF_LANER_CASES"); v != "" {
 		fmt.Sscan(v, &cases)
+	}
+	if f.budget > 0 {
+		budget = f.budget
 	}
 	env := append(os.Environ(), "GORACE=halt_on_error=0 exitcode=0", "GOMAXPROCS="+gomaxprocsFor(f.workers))
 	deadline := time.Now().Add(budget)
